@@ -2,7 +2,7 @@
 import re
 from ..facts import Program, loc
 from ..run import Check, AnalysisBroken
-from ..rules import r4_own, r9_sibling, ledger, r5_grow, r6_wspace, extent, r11_kinds, r4_path, misc
+from ..rules import r4_own, r9_sibling, ledger, r5_grow, r6_wspace, extent, r11_kinds, r4_path, misc, lints
 
 DUNITS = None   # R9: whole SRC + FORTRAN
 
@@ -75,6 +75,8 @@ def run(tier):
         if r4_path.run(chk, 'R4.path', prog, cfgname) < 40:
             raise AnalysisBroken('C19: fewer than 40 releases through an access path found')
         r4_path.field_held_rule(chk, 'R4.parked', prog, cfgname)
+        lints.bound_before_use_rule(chk, 'C19.order', prog, cfgname, floor=5)
+        lints.scratch_extent_rule(chk, 'C19.scratch', prog, cfgname, floor=40)
         r11_kinds.run(chk, 'C19.kinds', prog, cfgname, floor=1900)
         if cfgname == 'tested':
             r9_sibling.run(chk, prog, 'R9', None, cfgname)
